@@ -21,7 +21,7 @@ func init() {
 			"the observation of A must be identical across every read-only call and equal to B's at the end; copies taken at random points must equal the original at copy time and, after disjoint suffixes on both sides, each must equal its own sequentially replayed twin. " +
 			"Second pass (race-detector build): a sketch/store and its Copy are hammered by two unsynchronised goroutines; any DATA RACE report is shared mutable state between independent objects. Non-trivial = the hook saw a read-only call reorganise the representation (sort/compact) or a copy followed by mutations on both sides; distinct = hash of the history.",
 		Cases:     core.Scale(10000, 250000),
-		Mandatory: []string{"oracle.read_purity_checks", "oracle.twin_equalities", "oracle.copy_equalities", "oracle.copy_independence_checks", "layout.read_reorganised", "read.Encode", "read.ToProto", "read.EncodeProto", "read.Bins", "read.as_merge_argument", "read.as_change_mapping_source", "ending.underflowed_bins", "race.pairs"},
+		Mandatory: []string{"oracle.read_purity_checks", "oracle.twin_equalities", "oracle.copy_equalities", "oracle.copy_independence_checks", "layout.read_reorganised", "read.Encode", "read.ToProto", "read.EncodeProto", "read.Bins", "read.as_merge_argument", "read.as_change_mapping_source", "ending.underflowed_bins", "race.pairs", "read.change_mapping_below_target_range"},
 		Assumptions: []string{
 			"dyadic weights: observations are bitwise comparable whatever the iteration order of the sparse store",
 			"race pass: the Go race detector only reports races on executions it sees; silence is not a proof of independence",
@@ -136,7 +136,24 @@ func readOnlyCall(c *core.Ctx, r *rng.Rng, s mon.Sketch, m *gen.Map, spec gen.St
 			if r.P(0.3) {
 				nm, scale = m, 1
 			}
-			out := s.ChangeMapping(nm.M, gen.RandPlainStore(r), scale)
+			target := gen.RandPlainStore(r)
+			if scale != 1 && r.P(0.25) {
+				// a unit change so drastic that part of the content falls below what the new mapping can index
+				// (the smallest magnitude held lands 2^-1..2^-30 under its smallest indexable value): whatever the
+				// result is, the source is only read
+				amin := 0.0
+				k.ForEach(func(v, w float64) bool {
+					if a := math.Abs(v); a > 0 && (amin == 0 || a < amin) {
+						amin = a
+					}
+					return false
+				})
+				if sc := nm.Min / amin * math.Ldexp(1, -r.Range(1, 30)); amin > 0 && sc > 0 && !math.IsInf(sc, 0) {
+					scale, target = sc, gen.StoreSpec{Kind: gen.SSparse}
+					c.Count("read.change_mapping_below_target_range", 1)
+				}
+			}
+			out := s.ChangeMapping(nm.M, target, scale)
 			// the result keeps being used: nothing of it may alias the source
 			out.I().GetCount()
 			out.I().Add(nm.ClampIn(2))
